@@ -126,7 +126,7 @@ requests:
 `, csvPath, smallPath)
 	postHead := `    postprocessors:
       - type: "var/jsonpath"
-        mapping: {"tok": "$.tok"}
+        mapping: {"tok": "$.tok", "n": "$.n", "deep": "$.d.e", "flag": "$.ok"}
       - type: "var/header"
         mapping: {"h": "X-Tok|upper"}
       - type: "assert/response"
@@ -258,7 +258,7 @@ func genCase(rng *rand.Rand, instances int) Case {
 		fm := map[int]Fail{}
 		for r := 0; r < shots; r++ {
 			if rng.Intn(3) == 0 {
-				fm[r] = Fail{Pos: rng.Intn(len(exp)), Kind: []string{"status500", "drop", "badjson", "nobody"}[rng.Intn(4)]}
+				fm[r] = Fail{Pos: rng.Intn(len(exp)), Kind: []string{"status500", "drop", "badjson", "nobody", "nofield"}[rng.Intn(5)]}
 			}
 		}
 		c.Fails[s.Name] = fm
@@ -336,9 +336,13 @@ func (w *world) respond(rq *vkit.ReqRec, rw http.ResponseWriter, r *http.Request
 		fmt.Fprintf(rw, `{"tok": %s`, x.Tok)
 	case "nobody":
 		rw.WriteHeader(200)
+	case "nofield":
+		// well-formed, status 200, every assertion satisfied — but one of the four captured fields is not there
+		rw.WriteHeader(200)
+		fmt.Fprintf(rw, `{"n":%d,"d":{"e":1},"ok":true,"note":"the tok field is missing"}`, x.Seq)
 	default:
 		rw.WriteHeader(200)
-		fmt.Fprintf(rw, `{"tok":%q,"n":%d}`, x.Tok, x.Seq)
+		fmt.Fprintf(rw, `{"tok":%q,"n":%d,"d":{"e":1},"ok":true}`, x.Tok, x.Seq)
 	}
 }
 
